@@ -261,6 +261,24 @@ Fixpoint bound_for (dict : bool) (s : spec) {struct s} : option spec :=
          end) cs
   | _ => None
   end.
+(* the field hands a dict (list) to a Dict (List) spec or to Any *)
+Fixpoint route (dict : bool) (s : spec) {struct s} : bool :=
+  negb (Typing.frozen (Typing.mods_of s)) &&
+  match s with
+  | Typing.SDict _ _ => dict
+  | Typing.SList _ _ _ _ => negb dict
+  | Typing.SAny _ => true
+  | Typing.SUnion cs _ =>
+      (fix go (l : list spec) : bool :=
+         match l with
+         | [] => false
+         | c :: r => if takes (if dict then is_tydict else is_tylist) c then route dict c else go r
+         end) cs
+  | _ => false
+  end.
+(* what a field sees of an object: its class *)
+Definition obj_pv (c : N) : pv := Typing.PObj [2%N; c] 0.
+
 Definition bound_opt (dict : bool) (o : option spec) : option spec :=
   match o with Some s => bound_for dict s | None => None end.
 Definition field_opt (o : option spec) (k : key) : option spec :=
@@ -543,6 +561,66 @@ Definition tformalize (sc : scope) (st : state) (r : nat) (ck : kind) (cid : N) 
       else inr EOther
   end.
 
+(* a symbolic value (given by reference) handed to a field: what apply + custom_apply do with it when nothing has to be
+   bound or completed in place.
+   - an object: the field checks its class (there is no custom_apply); it is stored as it is;
+   - an untyped dict / list: stored as it is when the field routes it to Any; refused with the error of apply when the field
+     takes no dict / list at all; a field that routes it to a Dict / List spec binds that spec to the value and completes it in
+     place (not modelled);
+   - a dict / list that carries a spec: stored as it is when that spec is the one the field binds (or the field routes it to
+     Any) and its allow_partial flag is the effective one; otherwise is_compatible decides and the flag is overridden
+     (not modelled). *)
+Inductive rdec : Type := RDAccept | RDErr (e : err) | RDNA.
+Definition ref_decide (sc : scope) (cfl : flags) (f : spec) (v : node) : rdec :=
+  let p := accepts_partial sc cfl in
+  match v with
+  | Leaf _ => RDNA
+  | Node _ (KObj c) _ _ _ _ =>
+      if Typing.frozen (Typing.mods_of f) then RDNA else
+      match Typing.apply p f (obj_pv c) with
+      | Typing.Ok w => if Typing.pv_eqb w (obj_pv c) then RDAccept else RDNA
+      | Typing.Err e => RDErr (t_err e)
+      end
+  | Node _ k _ _ fl _ =>
+      let dict := match k with KDict => true | _ => false end in
+      if route dict f then
+        match bound_for dict f with
+        | None => if N.eqb (f_spec fl) 0 || Bool.eqb (f_partial fl) p then RDAccept else RDNA
+        | Some b =>
+            if negb (N.eqb (f_spec fl) 0) && N.eqb (f_spec fl) (ref_of ev b) && Bool.eqb (f_partial fl) p then RDAccept else RDNA
+        end
+      else if N.eqb (f_spec fl) 0 then
+        match Typing.apply p f (node_pv v) with Typing.Err e => RDErr (t_err e) | Typing.Ok _ => RDNA end
+      else RDNA
+  end.
+Definition tformalize_ref (sc : scope) (st : state) (r : nat) (ck : kind) (cid : N) (cfl : flags) (tpath : list key)
+           (ins : bool) (f : spec) (rv : rvalue) : (node * state) + err :=
+  match rv with
+  | RNodeId i =>
+      match locate st i with
+      | Some vpos =>
+          match get_at st vpos with
+          | Some v =>
+              match ref_decide sc cfl f v with
+              | RDAccept => inl (formalize q sc st r ck cid cfl tpath ins rv)
+              | RDErr e => inr e
+              | RDNA => inr ENA
+              end
+          | None => inr ENA
+          end
+      | None => inr ENA
+      end
+  | _ => inr ENA
+  end.
+(* a resolved value: the plain Python value when it is one, else the value as SymCore sees it *)
+Definition xval (x : rtv) : pv + rvalue := match r_pv x with Some v => inl v | None => inr (r_rv x) end.
+Definition tformalize_s (sc : scope) (st : state) (r : nat) (ck : kind) (cid : N) (cfl : flags) (tpath : list key)
+           (ins : bool) (f : spec) (s : pv + rvalue) : (node * state) + err :=
+  match s with
+  | inl v => tformalize sc st r ck cid cfl tpath ins f v
+  | inr rv => tformalize_ref sc st r ck cid cfl tpath ins f rv
+  end.
+
 Definition count_present (its : list (key * node)) : Z := zlen (filter (fun kv => negb (is_missing (snd kv))) its).
 (* List._ensure_removable(count) *)
 Definition removable (mn : Z) (its : list (key * node)) (count : Z) : bool := negb (count_present its - count <? mn).
@@ -579,31 +657,23 @@ Definition tlprim (sc : scope) (st : state) (cp : pos) (k : key) (x : rtv) (e : 
             | Some (_, old) =>
                 if same_obj_t old rv then (st, PNone) else
                 if x_missing x && negb (removable mn its 1) then (st, PErr EValue) else
-                match r_pv x with
-                | None => (st, PErr ENA)
-                | Some v =>
-                    match tformalize sc st (fst cp) KList cid cfl (cpath ++ [KI idx]) false e v with
-                    | inr er => (st, PErr er)
-                    | inl (nw, st1) =>
-                        let st2 := update_at st1 cp (set_items (set_nth (Z.to_nat idx) (KI idx, nw) its)) in
-                        (add_detached st2 old, PUpd)
-                    end
+                match tformalize_s sc st (fst cp) KList cid cfl (cpath ++ [KI idx]) false e (xval x) with
+                | inr er => (st, PErr er)
+                | inl (nw, st1) =>
+                    let st2 := update_at st1 cp (set_items (set_nth (Z.to_nat idx) (KI idx, nw) its)) in
+                    (add_detached st2 old, PUpd)
                 end
             | None => (st, PErr EIndex)
             end
           else
             if full mx n then (st, PErr EValue) else
-            match r_pv x with
-            | None => (st, PErr ENA)
-            | Some v =>
-                match tformalize sc st (fst cp) KList cid cfl (cpath ++ [KI idx]) ins e v with
-                | inr er => (st, PErr er)
-                | inl (nw, st1) =>
-                    if idx <? n then
-                      (update_at st1 cp (set_items (renum cpath (insert_at (Z.to_nat idx) (KI idx, nw) its))), PUpd)
-                    else
-                      (update_at st1 cp (set_items (its ++ [(KI idx, nw)])), PUpd)
-                end
+            match tformalize_s sc st (fst cp) KList cid cfl (cpath ++ [KI idx]) ins e (xval x) with
+            | inr er => (st, PErr er)
+            | inl (nw, st1) =>
+                if idx <? n then
+                  (update_at st1 cp (set_items (renum cpath (insert_at (Z.to_nat idx) (KI idx, nw) its))), PUpd)
+                else
+                  (update_at st1 cp (set_items (its ++ [(KI idx, nw)])), PUpd)
             end
       end
   | _ => (st, PErr EOther)
@@ -624,15 +694,11 @@ Definition tdprim (sc : scope) (st : state) (cp : pos) (k : key) (x : rtv) (fs :
             (* MISSING_VALUE deletes a key of the StrKey() field *)
             (add_detached (update_at st cp (set_items (remove_assoc k its))) old, PUpd)
           else
-            match (if r_ins x then Some junk_pv else r_pv x) with
-            | None => (st, PErr ENA)
-            | Some v0 =>
-                (* MISSING_VALUE on a declared key: back to the field's default *)
-                let v := if miss then Typing.dflt (Typing.mods_of f) else v0 in
-                match tformalize sc st (fst cp) ck cid cfl (cpath ++ [k]) false f v with
-                | inr er => (st, PErr er)
-                | inl (nw, st1) => (add_detached (update_at st1 cp (set_items (set_assoc k nw its))) old, PUpd)
-                end
+            (* MISSING_VALUE on a declared key: back to the field's default *)
+            let v := if r_ins x then inl junk_pv else if miss then inl (Typing.dflt (Typing.mods_of f)) else xval x in
+            match tformalize_s sc st (fst cp) ck cid cfl (cpath ++ [k]) false f v with
+            | inr er => (st, PErr er)
+            | inl (nw, st1) => (add_detached (update_at st1 cp (set_items (set_assoc k nw its))) old, PUpd)
             end
       end
   | _ => (st, PErr EOther)
@@ -1017,6 +1083,44 @@ Definition ref_typed (st : state) (x : rtv) : bool :=
       end
   | _ => false
   end.
+(* the field a value written into container c under key k is checked against *)
+Definition field_at (c : node) (k : option key) : option spec :=
+  match c, node_spec ev c with
+  | Node _ KList _ _ _ _, Some (Typing.SList e _ _ _) => Some e
+  | Node _ KList _ _ _ _, _ => None
+  | _, Some (Typing.SDict (Some fs) _) => match k with Some kk => dict_field fs kk | None => None end
+  | _, _ => None
+  end.
+Definition flags_of (n : node) : flags := match n with Node _ _ _ _ fl _ => fl | Leaf _ => default_flags end.
+(* a value given by reference, for a container that checks its members: one of the cases [ref_decide] covers *)
+Definition ref_ok (sc : scope) (st : state) (c : node) (k : option key) (x : rtv) : bool :=
+  negb (r_ins x) &&
+  match r_rv x with
+  | RNodeId i =>
+      match locate st i with
+      | Some vpos =>
+          match get_at st vpos with
+          | Some v =>
+              negb (unfilled v) &&
+              match field_at c k with
+              | None => true
+              | Some f => match ref_decide sc (flags_of c) f v with RDNA => false | _ => true end
+              end
+          | None => false
+          end
+      | None => false
+      end
+  | _ => false
+  end.
+Definition value_ok2 (sc : scope) (st : state) (c : node) (k : option key) (x : rtv) : bool :=
+  match r_pv x with Some _ => value_ok sc x | None => ref_ok sc st c k x end.
+Definition op_keyed {A} (o : op A) : list (option key * A) :=
+  match o with
+  | DSet _ k v | DSetDefault k v | OSet k v => [(Some k, v)]
+  | DUpdate kvs | DIOr kvs => map (fun kv => (Some (fst kv), snd kv)) kvs
+  | _ => map (fun v => (None, v)) (op_values o)
+  end.
+
 Definition guard (sc : scope) (st : state) (ps : pos) (tn : node) (o : op rtv) : bool :=
   negb ((scope_restrictive sc || match scope_partial sc with Some _ => true | None => false end) &&
         existsb (ref_typed st) (op_values o)) &&
@@ -1026,11 +1130,21 @@ Definition guard (sc : scope) (st : state) (ps : pos) (tn : node) (o : op rtv) :
   match o with
   | Rebind pvs =>
       forallb (fun pv => match container_at st ps (fst pv) with
-                         | Some c => negb (checks_members c) || value_ok sc (snd pv)
+                         | Some c => negb (checks_members c) || value_ok2 sc st c (Some (last (fst pv) (KI 0))) (snd pv)
                          | None => true
                          end) pvs
   | _ =>
-      (negb (checks_members tn) || forallb (value_ok sc) (op_values o)) &&
+      (* list + values: the values are written into the copy, which is not partial *)
+      let wn := match o, tn with
+                | LAdd _, Node i k pa pt fl its => Node i k pa pt (mkFlags (f_sealed fl) (f_aw fl) false (f_spec fl)) its
+                | _, _ => tn
+                end in
+      (negb (checks_members tn) || forallb (fun kx => value_ok2 sc st wn (fst kx) (snd kx)) (op_keyed o)) &&
+      (* the copy of a typed list that holds placeholders of removed elements puts them back after validating the rest *)
+      match o with
+      | LCopy | LAdd _ => negb (checks_members tn && existsb (fun kc => SymCoreDefs.is_missing (snd kc)) (nitems tn))
+      | _ => true
+      end &&
       match o with
       | LIMul _ | LMul _ | LAdd _ | LCopy => negb (checks_members tn && has_sym_child (nitems tn))
       | _ => true
